@@ -14,7 +14,9 @@ regenerated from the source and must return exactly what the real objects return
 
 Streams: policy (regenerated policy table vs. behaviour), exhaustive (all histories of <= 3 (quick) / 4 (thorough) operations
 over 3 expression shapes x 6 mutation kinds on a fixed world), random (histories of <= 25 operations, nesting <= 4, all
-elementary state kinds), viewer (histogram viewer layer state: cached histogram vs a fresh viewer).
+elementary state kinds), viewer (histogram viewer layer state: cached histogram vs a fresh viewer), histstate (one key field changed at a time),
+presentation / profile (ONE viewer state, cache key unchanged, presentation settings -- normalize, cumulative -- assigned between reads: every read equals the read
+of freshly constructed states with the same settings, and a read leaves the cached arrays unchanged), frb (compute_fixed_resolution_buffer between mask requests).
 """
 import itertools
 import operator
@@ -32,12 +34,21 @@ TRUSTED = [
     'hand model coq/C05/Model.v (versioned inputs, evaluator with exceptions, histories); the fresh results of the elementary '
     'states are inputs of the model',
     'the fresh world is a re-construction of the objects from the case seed with the mutations of the history replayed on it',
+    'tools/gen/gen_memo.py, post-processing scan: which expressions of a function that reads a cache entry give a NEW array (copy / astype / np.array / '
+    'arithmetic / whitelisted reductions) and which may share memory with the entry (everything else); intra-procedural plus one level of callee summaries '
+    '(functions that modify their own parameters in place), parameters are taken not to be cache entries, values parked in non-cache attributes are not followed; '
+    'the row of compute_fixed_resolution_buffer is exempt from the table theorem (its get_mask view is an unhashable tuple of arrays, so the array is not a '
+    'cache entry) and is covered by the frb stream instead',
 ]
 ASSUMPTIONS = [
     'assigning to an attribute of a subset state, or editing the ROI object it holds in place, does not invalidate memoised masks: '
     'recorded as known finding setattr-no-invalidation (the model is knowingly stale in the same way)',
     'the per-attribute limits / bins remembered by StateAttributeLimitsHelper / StateAttributeHistogramHelper are user settings, '
     'not computed results; only the histogram values computed from them are compared',
+    'a CALLER writing into an array that glue handed out (Data.get_mask / state.to_mask of a memoised state, ProfileLayerState.profile and the edges of '
+    'HistogramLayerState.histogram are the cached arrays themselves) is not one of the changes the property quantifies over and is not probed; what is checked '
+    'is that glue itself never modifies a cached value: statically (table theorem cached_values_never_written) and at run time (a read under an unchanged key '
+    'leaves the cached arrays bitwise unchanged)',
 ]
 
 FKW, FPOS, FNONE = C1.FKW, C1.FPOS, C1.FNONE
@@ -1340,6 +1351,420 @@ def stream_histstate(R):
                    'read after each, compared with freshly constructed states')
 
 
+# ---- presentation settings applied on top of a cached result (normalize / cumulative on the cached counts, ...)
+PRES_OPS = [('normalize', True), ('normalize', False), ('cumulative', True), ('cumulative', False)]
+PRES_KEY_OPS = [('hist_n_bin', 4), ('hist_n_bin', 8), ('x_att', 'x'), ('x_att', 'y'), ('hist_x_max', 4.0), ('hist_x_max', 3.0), ('x_log', False), ('x_log', True),
+                ('hist_x_min', 0.0), ('hist_x_min', 0.5)]
+PRES_DEFAULT = {'x_att': 'x', 'x_log': False, 'hist_x_min': 0.0, 'hist_x_max': 4.0, 'hist_n_bin': 8, 'normalize': False, 'cumulative': False}
+PRES_ORDER = ['x_att', 'x_log', 'hist_x_min', 'hist_x_max', 'hist_n_bin', 'normalize', 'cumulative']
+
+
+def pres_world(seed, i):
+    """(viewer state, [data layer state, subset layer state], attribute table); i < 0: the fixed world of the exhaustive stream"""
+    from glue.core import Data, DataCollection
+    from glue.viewers.histogram.state import HistogramViewerState, HistogramLayerState
+    if i < 0:
+        xs = np.array([0.5, 0.5, 0.5, 1.5, 1.5, 2.5, 3.5, 3.5, 3.5, 3.5])
+        ys = np.array([1.0, 2.0, 3.0, 1.0, 2.0, 3.0, 1.0, 2.0, 3.0, 1.5])
+    else:
+        rng = C1.case_rng(seed, 'presentation', i, 'w')
+        n = rng.randint(6, 12)
+        xs = np.array([rng.choice([0.5, 1.0, 1.5, 2.5, 3.5]) for _ in range(n)])
+        ys = np.array([rng.choice([0.75, 1.0, 2.0, 3.0, 3.5]) for _ in range(n)])
+    d = Data(x=xs, y=ys, label='d')
+    dc = DataCollection([d])
+    dc.new_subset_group(subset_state=d.id['y'] > 1.25)
+    vs = HistogramViewerState()
+    vs.data_collection = dc
+    layers = [HistogramLayerState(layer=d, viewer_state=vs), HistogramLayerState(layer=d.subsets[0], viewer_state=vs)]
+    for l in layers:
+        vs.layers.append(l)
+    return vs, layers, {'x': d.id['x'], 'y': d.id['y']}
+
+
+def pres_set(vs, atts, name, value):
+    setattr(vs, name, atts[value] if name == 'x_att' else value)
+
+
+def pres_read(layers):
+    """one read of every layer histogram, as the layer artist reads it: private copies of (edges, values), or the exception class"""
+    out = []
+    for l in layers:
+        try:
+            e, h = l.histogram
+            out.append((np.array(e, dtype=float, copy=True), np.array(h, dtype=float, copy=True)))
+        except Exception as ex:
+            out.append(type(ex).__name__)
+    return out
+
+
+def pres_same(a, b):
+    return len(a) == len(b) and all((isinstance(p, str) and p == q) or (not isinstance(p, str) and not isinstance(q, str) and
+                                    p[0].shape == q[0].shape and p[1].shape == q[1].shape and
+                                    np.array_equal(p[0], q[0], equal_nan=True) and np.array_equal(p[1], q[1], equal_nan=True)) for p, q in zip(a, b))
+
+
+def pres_show(a):
+    return [p if isinstance(p, str) else np.round(p[1], 6).tolist() for p in a]
+
+
+_PRES_FRESH = {}
+
+
+def pres_fresh(seed, i, settings):
+    """what freshly constructed, never evaluated state objects return when they are given `settings` once (in the fixed order PRES_ORDER)
+    and read once.  The objects are really constructed; the result is remembered per (world, settings) so that the same construction is
+    not repeated for every history that passes through the same settings."""
+    k = (seed if i >= 0 else 0, i, tuple(settings[n] for n in PRES_ORDER))
+    if k not in _PRES_FRESH:
+        vs, layers, atts = pres_world(seed, i)
+        for n in PRES_ORDER:
+            pres_set(vs, atts, n, settings[n])
+        _PRES_FRESH[k] = pres_read(layers)
+    return _PRES_FRESH[k]
+
+
+def cache_snapshot(l):
+    c = l._histogram_cache
+    if c is None:
+        return None
+    try:
+        return (c[0], tuple(np.array(a, copy=True) for a in c[1]))
+    except Exception:
+        return None
+
+
+def pres_history(seed, i, first_read, ops):
+    """run one history on ONE viewer state: [initial read]; for each op: assign the setting, read twice.  Returns (oracle failure text or None,
+    correspondence remark or None, alias observations)"""
+    vs, layers, atts = pres_world(seed, i)
+    settings = dict(PRES_DEFAULT)
+    for n in PRES_ORDER:
+        pres_set(vs, atts, n, settings[n])
+    bad = corr = None
+    alias = set()
+
+    def reads(t, what):
+        nonlocal bad, corr
+        fresh = pres_fresh(seed, i, settings)
+        for k in range(2):
+            before = [cache_snapshot(l) for l in layers]
+            got = pres_read(layers)
+            after = [cache_snapshot(l) for l in layers]
+            if bad is None and not pres_same(got, fresh):
+                bad = ('step %d (%s), read %d with settings %r: the live layer states give %s, freshly constructed states with the same settings give %s'
+                       % (t, what, k + 1, {n: settings[n] for n in PRES_ORDER}, pres_show(got), pres_show(fresh)))
+            # the cached value is immutable: a read under an unchanged key leaves the cached arrays as they were
+            for b, a in zip(before, after):
+                if corr is None and b is not None and a is not None and b[0] == a[0] and not all(
+                        p.shape == q.shape and np.array_equal(p, q, equal_nan=True) for p, q in zip(b[1], a[1])):
+                    corr = ('step %d (%s), read %d: reading the histogram changed the cached (edges, counts) under the unchanged key %r: counts before %s, after %s'
+                            % (t, what, k + 1, b[0][1:], np.round(b[1][1], 6).tolist(), np.round(a[1][1], 6).tolist()))
+        for l in layers:
+            try:
+                e, h = l.histogram
+                c = l._histogram_cache[1]
+                alias.add(('edges', bool(np.shares_memory(e, c[0]))))
+                alias.add(('values', bool(np.shares_memory(h, c[1]))))
+            except Exception:
+                pass
+    if first_read:
+        reads(0, 'initial settings')
+    for t, (name, value) in enumerate(ops):
+        pres_set(vs, atts, name, value)
+        settings[name] = value
+        # the per-attribute helpers of the viewer state may re-derive limits / bins when x_att or x_log changes: the settings of the history are
+        # (re-)assigned in the fixed order afterwards, as for the fresh states (assigning an equal value changes nothing, so the key stays the same
+        # across normalize / cumulative assignments)
+        for n in PRES_ORDER:
+            pres_set(vs, atts, n, settings[n])
+        reads(t + 1, '%s = %r' % (name, value))
+        if bad:
+            break
+    return bad, corr, alias
+
+
+def stream_presentation(R):
+    try:
+        from glue.viewers.histogram.state import HistogramViewerState, HistogramLayerState   # noqa
+    except Exception as e:
+        R.note('histogram viewer state not importable: %s' % e)
+        return
+    _PRES_FRESH.clear()
+    L = R.pick(4, 5)
+    cases = []
+    for n in range(1, L + 1):
+        for h in itertools.product(PRES_OPS, repeat=n):
+            for first in (True, False):
+                cases.append((-1, first, list(h)))
+    nexh = len(cases)
+    for i in range(R.pick(100, 1500)):
+        rng = C1.case_rng(R.seed, 'presentation', i, 'ops')
+        ops = [rng.choice(PRES_OPS) if rng.random() < 0.65 else rng.choice(PRES_KEY_OPS) for _ in range(rng.randint(5, 14))]
+        cases.append((i, rng.random() < 0.5, ops))
+    aliases = set()
+    nbad = ncorr = 0
+    for i, first, ops in cases:
+        try:
+            bad, corr, al = pres_history(R.seed, i, first, ops)
+        except Exception as e:
+            R.note('presentation stream stopped: %s: %s' % (type(e).__name__, e))
+            R.fail('correspondence', {'stream': 'presentation', 'seed': R.seed, 'i': i, 'first_read': first, 'ops': [list(o) for o in ops]},
+                   'running the history raised %s: %s' % (type(e).__name__, e))
+            return
+        aliases |= al
+        R.count(('presentation', R.seed if i >= 0 else 0, i, first, repr(ops)), nontrivial=len(ops) > 1, stream='presentation',
+                history_len=min(len(ops), 30) // 5 * 5, outcome='oracle-fail' if bad else 'ok')
+        case = {'stream': 'presentation', 'seed': R.seed, 'i': i, 'first_read': first, 'ops': [list(o) for o in ops]}
+        if bad and nbad < 5:
+            nbad += 1
+            if i >= 0:
+                case = pres_shrink(R.seed, i, first, ops)
+                bad = pres_history(R.seed, i, case['first_read'], [tuple(o) for o in case['ops']])[0] or bad
+            R.fail('oracle', case, bad)
+        if corr and ncorr < 3:
+            ncorr += 1
+            R.fail('correspondence', case, corr)
+    R.note('presentation: arrays handed out by HistogramLayerState.histogram that share memory with the cached entry: %s'
+           % sorted(a for a, sh in aliases if sh))
+    R.stream('presentation', cases=len(cases), exhaustive=False,
+             bound='ONE HistogramViewerState with a data layer and a subset layer, cache key (x_att, x_log, limits, n_bin) unchanged: all %d histories of <= %d assignments '
+                   'over {normalize, cumulative} x {on, off}, with and without a read before the first one (exhaustive part), each layer histogram read twice after every '
+                   'assignment; %d random histories of 5-14 assignments that also change key fields (n_bin, x_att, limits, log) in between; every read compared with freshly '
+                   'constructed states given the same settings; the cached arrays must be unchanged by a read' % (nexh, L, len(cases) - nexh))
+
+
+def pres_shrink(seed, i, first, ops):
+    ops = list(ops)
+    improved = True
+    while improved:
+        improved = False
+        for j in range(len(ops) - 1, -1, -1):
+            cand = ops[:j] + ops[j + 1:]
+            try:
+                if pres_history(seed, i, first, cand)[0]:
+                    ops = cand
+                    improved = True
+                    break
+            except Exception:
+                pass
+    if first:
+        try:
+            if pres_history(seed, i, False, ops)[0]:
+                first = False
+        except Exception:
+            pass
+    return {'stream': 'presentation', 'seed': seed, 'i': i, 'first_read': first, 'ops': [list(o) for o in ops]}
+
+
+# ---- the same for the profile viewer's layer state: ProfileLayerState.profile hands out the cached (x, y); normalize is applied on top
+PROF_OPS = [('normalize', True), ('normalize', False), ('function', 'mean'), ('function', 'maximum'), ('x_att', 0), ('x_att', 2)]
+PROF_MORE = [('function', 'sum'), ('function', 'minimum'), ('x_att', 1), ('attribute', 'a'), ('attribute', 'b')]
+PROF_DEFAULT = {'x_att': 0, 'function': 'maximum', 'attribute': 'a', 'normalize': False}
+PROF_ORDER = ['x_att', 'function', 'attribute', 'normalize']
+
+
+def prof_world(seed, i):
+    from glue.core import Data, DataCollection
+    from glue.viewers.profile.state import ProfileViewerState, ProfileLayerState
+    if i < 0:
+        a = (np.arange(24.0).reshape(2, 3, 4) * 5) % 7
+        b = (np.arange(24.0).reshape(2, 3, 4) * 3) % 5
+    else:
+        rng = C1.case_rng(seed, 'profile', i, 'w')
+        shape = (rng.randint(2, 3), rng.randint(2, 3), rng.randint(2, 4))
+        n = int(np.prod(shape))
+        a = np.array([float(rng.randint(0, 6)) for _ in range(n)]).reshape(shape)
+        b = np.array([float(rng.randint(1, 9)) for _ in range(n)]).reshape(shape)
+    d = Data(a=a, b=b, label='cube')
+    dc = DataCollection([d])
+    dc.new_subset_group(subset_state=d.id['a'] > 1.5)
+    vs = ProfileViewerState()
+    layers = [ProfileLayerState(layer=d, viewer_state=vs), ProfileLayerState(layer=d.subsets[0], viewer_state=vs)]
+    for l in layers:
+        vs.layers.append(l)
+    return d, vs, layers
+
+
+def prof_set(d, vs, layers, name, value):
+    if name == 'x_att':
+        vs.x_att = d.pixel_component_ids[value]
+    elif name == 'attribute':
+        for l in layers:
+            l.attribute = d.id[value]
+    else:
+        setattr(vs, name, value)
+
+
+def prof_read(vs, layers):
+    """one read of every layer, the way ProfileLayerArtist._calculate_profile_postthread reads: the cached (x, y), limits refreshed from it,
+    y normalised when the viewer says so; private copies.  (The very first read of a layer can return None -- assigning the limits makes the
+    viewer state re-derive its unit choices, which resets the layer's cache while it is being filled -- so a None is read once more, on the
+    live and on the fresh side alike.)"""
+    out = []
+    for l in layers:
+        try:
+            p = l.profile
+            if p is None:
+                p = l.profile
+            if p is None:
+                out.append('None')
+                continue
+            x, y = p
+            if len(x) > 0:
+                l.update_limits()
+                if vs.normalize:
+                    y = l.normalize_values(y)
+            out.append((np.array(x, dtype=float, copy=True), np.array(y, dtype=float, copy=True)))
+        except Exception as ex:
+            out.append(type(ex).__name__)
+    return out
+
+
+_PROF_FRESH = {}
+
+
+def prof_fresh(seed, i, settings):
+    k = (seed if i >= 0 else 0, i, tuple(settings[n] for n in PROF_ORDER))
+    if k not in _PROF_FRESH:
+        d, vs, layers = prof_world(seed, i)
+        for n in PROF_ORDER:
+            prof_set(d, vs, layers, n, settings[n])
+        _PROF_FRESH[k] = prof_read(vs, layers)
+    return _PROF_FRESH[k]
+
+
+def prof_history(seed, i, first_read, ops):
+    d, vs, layers = prof_world(seed, i)
+    settings = dict(PROF_DEFAULT)
+    for n in PROF_ORDER:
+        prof_set(d, vs, layers, n, settings[n])
+    bad = corr = None
+
+    def snap(l):
+        c = l._profile_cache
+        return None if c is None else tuple(np.array(a, dtype=float, copy=True) for a in c)
+
+    def reads(t, what):
+        nonlocal bad, corr
+        fresh = prof_fresh(seed, i, settings)
+        for k in range(2):
+            before = [snap(l) for l in layers]
+            got = prof_read(vs, layers)
+            after = [snap(l) for l in layers]
+            if bad is None and not pres_same(got, fresh):
+                bad = ('step %d (%s), read %d with settings %r: the live layer states give %s, freshly constructed states with the same settings give %s'
+                       % (t, what, k + 1, dict(settings), pres_show(got), pres_show(fresh)))
+            for b, a in zip(before, after):
+                if corr is None and b is not None and a is not None and not all(
+                        p.shape == q.shape and np.array_equal(p, q, equal_nan=True) for p, q in zip(b, a)):
+                    corr = ('step %d (%s), read %d: reading the profile changed the cached (x, y): y before %s, after %s'
+                            % (t, what, k + 1, np.round(b[1], 6).tolist(), np.round(a[1], 6).tolist()))
+    if first_read:
+        reads(0, 'initial settings')
+    for t, (name, value) in enumerate(ops):
+        prof_set(d, vs, layers, name, value)
+        settings[name] = value
+        for n in PROF_ORDER:
+            prof_set(d, vs, layers, n, settings[n])
+        reads(t + 1, '%s = %r' % (name, value))
+        if bad:
+            break
+    return bad, corr
+
+
+def stream_profile(R):
+    try:
+        from glue.viewers.profile.state import ProfileViewerState, ProfileLayerState   # noqa
+    except Exception as e:
+        R.note('profile viewer state not importable: %s' % e)
+        return
+    _PROF_FRESH.clear()
+    L = R.pick(3, 4)
+    cases = []
+    for n in range(1, L + 1):
+        for h in itertools.product(PROF_OPS, repeat=n):
+            cases.append((-1, len(cases) % 2 == 0, list(h)))
+    nexh = len(cases)
+    for i in range(R.pick(40, 400)):
+        rng = C1.case_rng(R.seed, 'profile', i, 'ops')
+        cases.append((i, rng.random() < 0.5, [rng.choice(PROF_OPS + PROF_MORE) for _ in range(rng.randint(4, 10))]))
+    nbad = ncorr = 0
+    for i, first, ops in cases:
+        case = {'stream': 'profile', 'seed': R.seed, 'i': i, 'first_read': first, 'ops': [list(o) for o in ops]}
+        try:
+            bad, corr = prof_history(R.seed, i, first, ops)
+        except Exception as e:
+            R.note('profile stream stopped: %s: %s' % (type(e).__name__, e))
+            R.fail('correspondence', case, 'running the history raised %s: %s' % (type(e).__name__, e))
+            return
+        R.count(('profile', R.seed if i >= 0 else 0, i, first, repr(ops)), nontrivial=len(ops) > 1, stream='profile',
+                history_len=min(len(ops), 30) // 5 * 5, outcome='oracle-fail' if bad else 'ok')
+        if bad and nbad < 5:
+            nbad += 1
+            R.fail('oracle', case, bad)
+        if corr and ncorr < 3:
+            ncorr += 1
+            R.fail('correspondence', case, corr)
+    R.stream('profile', cases=len(cases), exhaustive=False,
+             bound='ONE ProfileViewerState with a data layer and a subset layer on a 3-d cube: all %d histories of <= %d assignments over {normalize on/off, function '
+                   'mean/maximum, x_att axis 0/2} (every second one with a read first), %d random histories of 4-10 assignments (also sum / minimum, axis 1, attribute); after '
+                   'every assignment each layer is read twice the way the layer artist reads it (profile, update_limits, normalize_values), compared with freshly '
+                   'constructed states given the same settings; the cached arrays must be unchanged by a read' % (nexh, L, len(cases) - nexh))
+
+
+# ---- compute_fixed_resolution_buffer writes the invalid value into the array get_mask returned (the one row the table theorem exempts):
+#      masks requested before / after it must be those of fresh objects
+def stream_frb(R):
+    from glue.core import Data
+    from glue.core.fixed_resolution_buffer import compute_fixed_resolution_buffer
+    from glue.core import subset as S
+    n = R.pick(40, 300)
+    nbad = 0
+    for i in range(n):
+        rng = C1.case_rng(R.seed, 'frb', i)
+        shape = (rng.randint(2, 4), rng.randint(2, 4))
+
+        def make():
+            r2 = C1.case_rng(R.seed, 'frb', i, 'data')
+            d = Data(x=np.array([float(r2.randint(0, 5)) for _ in range(shape[0] * shape[1])]).reshape(shape), label='img')
+            kind = r2.randrange(3)
+            st = [d.id['x'] > 2, (d.id['x'] > 1) & (d.id['x'] < 4), S.MultiOrState([d.id['x'] > 3, d.id['x'] < 1])][kind]
+            return d, st
+        C1.clear_all_caches()
+        d, st = make()
+        first = rng.random() < 0.5
+        views = [None, (slice(0, 2),), (slice(0, 2), slice(1, None))]
+        ops = []
+        for _ in range(rng.randint(2, 5)):
+            if rng.random() < 0.5:
+                ops.append(('mask', rng.randrange(3)))
+            else:
+                lo0, lo1 = rng.choice([-2, -1, 0]), rng.choice([-2, -1, 0])
+                ops.append(('frb', (lo0, shape[0] + rng.choice([0, 1, 2]), shape[0] + 3), (lo1, shape[1] + rng.choice([0, 1]), shape[1] + 2)))
+        bad = None
+        for t, op in enumerate(ops):
+            if op[0] == 'frb':
+                f = lambda dd, ss: compute_fixed_resolution_buffer(dd, bounds=[op[1], op[2]], subset_state=ss)
+            else:
+                f = lambda dd, ss: dd.get_mask(ss, view=views[op[1]])
+            live = outcome(lambda: f(d, st))
+            with isolated_caches():
+                fd, fst = make()
+                fresh = outcome(lambda: f(fd, fst))
+            if not same_outcome(live, fresh):
+                bad = 'op %d %r after %r: live objects give %s, freshly constructed objects give %s' % (t, op, ops[:t], show(live), show(fresh))
+                break
+        R.count(('frb', R.seed, i, repr(ops)), nontrivial=any(o[0] == 'frb' for o in ops) and any(o[0] == 'mask' for o in ops), stream='frb')
+        if bad and nbad < 3:
+            nbad += 1
+            R.fail('oracle', {'stream': 'frb', 'seed': R.seed, 'i': i, 'ops': [list(o) for o in ops]}, bad)
+    C1.clear_all_caches()
+    R.stream('frb', cases=n, exhaustive=False,
+             bound='a 2-d dataset with a memoised selection: 2-5 of {get_mask with one of three views, compute_fixed_resolution_buffer with bounds that reach outside '
+                   'the data (the invalid value is written into the array get_mask returned)}, every result compared with freshly constructed objects')
+
+
 def run(R):
     R.rule = ('a case = a world (seeded) + a history of evaluation requests and mutations; non-trivial when it has at least one mutation and one '
               'request; distinct = distinct (world, history)')
@@ -1351,6 +1776,9 @@ def run(R):
     stream_random(R, ctab)
     stream_viewer(R)
     stream_histstate(R)
+    stream_presentation(R)
+    stream_profile(R)
+    stream_frb(R)
     C1.clear_all_caches()
 
 
@@ -1379,6 +1807,18 @@ def replay(R, case):
                 if got is not None and maskreq and j < len(got) and got[j] != mask_of(res['impl'][j]):
                     out['oracle'].append(what)
         out['violates'] = bool(out['oracle'])
+    elif case.get('stream') == 'presentation':
+        _PRES_FRESH.clear()
+        bad, corr, al = pres_history(case['seed'], case['i'], case['first_read'], [tuple(o) for o in case['ops']])
+        out['oracle'] = [bad] if bad else []
+        out['correspondence'] = [corr] if corr else []
+        out['violates'] = bool(bad)
+    elif case.get('stream') == 'profile':
+        _PROF_FRESH.clear()
+        bad, corr = prof_history(case['seed'], case['i'], case['first_read'], [tuple(o) for o in case['ops']])
+        out['oracle'] = [bad] if bad else []
+        out['correspondence'] = [corr] if corr else []
+        out['violates'] = bool(bad)
     else:
         out['note'] = 're-run the stream: ./check C05 --tier quick'
         out['violates'] = False
